@@ -114,6 +114,9 @@ func (n *Node) Text() string {
 	case "name":
 		return quoteName(n.Op)
 	case "not":
+		if renderMinParens && n.A[0].K != "bin" {
+			return "!" + n.A[0].Text()
+		}
 		return "!(" + n.A[0].Text() + ")"
 	case "call":
 		args := make([]string, len(n.A))
